@@ -110,7 +110,7 @@ impl Scenario for C01 {
         ]
     }
     fn plan(&self, thorough: bool, seed: u64) -> Vec<CaseSpec> {
-        plan_random("C01", "session", seed, if thorough { 120_000 } else { 6_000 })
+        plan_random("C01", "session", seed, if thorough { 200_000 } else { 12_000 })
     }
     fn run_case(&self, spec: &CaseSpec, text: bool) -> CaseReport {
         let mut cs = spec.stream();
